@@ -93,7 +93,11 @@ pub fn run_bisync(
 
     let host = host_id();
     // Start from the trusted base and mutate to the new common state as we apply.
+    // Drop base entries for paths that exist on neither side any more (deleted on
+    // both): reconcile never visits them, and a stale entry would later turn a
+    // re-created file with the old content into a delete.
     let mut common = base;
+    common.retain(|p, _| a.contains_key(p) || b.contains_key(p));
     let mut conflict_paths: Vec<PathBuf> = Vec::new();
     for (path, act) in &plan {
         apply(
